@@ -16,11 +16,13 @@ package p2p
 import (
 	"bufio"
 	"bytes"
+	"context"
 	"crypto/ecdsa"
 	crand "crypto/rand"
 	"encoding/binary"
 	"encoding/json"
 	"fmt"
+	"gitlab.com/aquachain/aquachain/p2p/netutil"
 	"io"
 	"io/ioutil"
 	"math/rand"
@@ -750,6 +752,47 @@ func runPeerBaseMessages(w *svw, rng *rand.Rand) {
 	}
 }
 
+// a listening server with a connection whitelist: attempts from outside the whitelist are refused - and after any number of
+// them an honest peer from inside it still gets its handshake answered (the accept loop does not wedge)
+func runListenerRejections(w *svw) {
+	allow, _ := netutil.ParseNetlist("127.0.0.2/32")
+	prv, _ := crypto.GenerateKey()
+	srv := &Server{Config: &Config{Name: "verif", MaxPeers: 10, MaxPendingPeers: 4, ListenAddr: "127.0.0.1:0", PrivateKey: prv, ChainId: 222,
+		NoDiscovery: true, NetRestrict: allow}}
+	if err := srv.Start(context.Background()); err != nil {
+		w.emit(map[string]interface{}{"e": "listener", "skipped": "start: " + err.Error(), "rejected": 0, "honest": "", "err": "", "kind": "listener"})
+		return
+	}
+	defer func() { go srv.Stop() }() // a wedged accept loop also wedges Stop: do not wait for it
+	rejected := 0
+	for i := 0; i < 12; i++ {
+		c, err := net.DialTimeout("tcp", srv.ListenAddr, 5*time.Second)
+		if err != nil {
+			continue
+		}
+		c.SetReadDeadline(time.Now().Add(5 * time.Second))
+		buf := make([]byte, 1)
+		if _, err := c.Read(buf); err != nil { // refused connections are closed by the server
+			rejected++
+		}
+		c.Close()
+	}
+	d := net.Dialer{LocalAddr: &net.TCPAddr{IP: net.IP{127, 0, 0, 2}}, Timeout: 5 * time.Second}
+	c, err := d.Dial("tcp", srv.ListenAddr)
+	if err != nil {
+		w.emit(map[string]interface{}{"e": "listener", "skipped": "no second loopback address: " + err.Error(), "rejected": rejected, "honest": "", "err": "", "kind": "listener"})
+		return
+	}
+	defer c.Close()
+	c.SetDeadline(time.Now().Add(60 * time.Second))
+	_, herr := initiatorEncHandshake(c, genKey(), discover.PubkeyID(&prv.ToECDSA().PublicKey))
+	hs := ""
+	if herr != nil {
+		hs = herr.Error()
+	}
+	w.emit(map[string]interface{}{"e": "listener", "skipped": "", "rejected": rejected, "honest": hs, "err": hs, "kind": "listener"})
+}
+
 func min(a, b int) int {
 	if a < b {
 		return a
@@ -839,6 +882,7 @@ func TestVerifSession(t *testing.T) {
 	runHostileFrames(w, rng, thorough)
 	runHostileHandshakes(w, rng)
 	runPeerBaseMessages(w, rng)
+	runListenerRejections(w)
 	fmt.Printf("VERIF-STAT events=%d sessions=%d\n", w.n, idx)
 }
 
